@@ -128,6 +128,7 @@ func drive(args []string) int {
 	only := fs.String("part", "", "run only this part (debugging; evidence is still written)")
 	_ = fs.Parse(args)
 	root := envOr("VERIF_ROOT", "/verif")
+	outRoot := envOr("VERIF_OUT", root) // evidence and replays go here (development: runs against scratch copies)
 	seed := uint64(20260928)
 	if s := os.Getenv("VERIF_SEED"); s != "" {
 		if v, err := strconv.ParseInt(s, 10, 64); err == nil {
@@ -199,7 +200,7 @@ func drive(args []string) int {
 			if rf != nil {
 				cs = rf.Case
 			}
-			runShard(root, scratch, p, r, *tier, seed, cs)
+			runShard(root, outRoot, scratch, p, r, *tier, seed, cs)
 		}(r)
 	}
 	wg.Wait()
@@ -263,7 +264,7 @@ func drive(args []string) int {
 			reps, harnessOnly := parseRaceLog(lp)
 			raceTotal += len(reps) + harnessOnly
 			if harnessOnly > 0 {
-				inconcl = append(inconcl, sfmt("part %s: %d race report(s) without an oxy frame (harness bug?) see %s", r.part.Name, harnessOnly, keepFile(root, lp, p.ID)))
+				inconcl = append(inconcl, sfmt("part %s: %d race report(s) without an oxy frame (harness bug?) see %s", r.part.Name, harnessOnly, keepFile(outRoot, lp, p.ID)))
 			}
 			for _, rp := range reps {
 				if _, ok := raceDistinct[rp.Key]; !ok {
@@ -296,7 +297,7 @@ func drive(args []string) int {
 	newViol := 0
 	knownHit := map[string]bool{}
 	replayPaths := []string{}
-	_ = os.MkdirAll(filepath.Join(root, "replays"), 0o755)
+	_ = os.MkdirAll(filepath.Join(outRoot, "replays"), 0o755)
 	printed := map[string]bool{}
 	for _, v := range viols {
 		if kf := matchKnown(known, p.ID, v.Key); kf != nil {
@@ -311,7 +312,7 @@ func drive(args []string) int {
 			continue
 		}
 		printed[v.Key] = true
-		rp := filepath.Join(root, "replays", sfmt("%s-%s-s%d-c%d-%x.json", p.ID, v.Part, seed, v.Case, hash64(v.Key+v.Msg)&0xffff))
+		rp := filepath.Join(outRoot, "replays", sfmt("%s-%s-s%d-c%d-%x.json", p.ID, v.Part, seed, v.Case, hash64(v.Key+v.Msg)&0xffff))
 		b, _ := json.MarshalIndent(&replayFile{Prop: p.ID, Part: v.Part, Tier: *tier, Seed: seed, Case: v.Case, Violation: v,
 			How: sfmt("cd %s && ./check %s --replay %s", root, p.ID, rp)}, "", " ")
 		_ = os.WriteFile(rp, b, 0o644)
@@ -350,10 +351,10 @@ func drive(args []string) int {
 			"violations":  newViol,
 		}
 		b, _ := json.MarshalIndent(ev, "", " ")
-		_ = os.MkdirAll(filepath.Join(root, "evidence"), 0o755)
-		tmp := filepath.Join(root, "evidence", p.ID+".json.tmp")
+		_ = os.MkdirAll(filepath.Join(outRoot, "evidence"), 0o755)
+		tmp := filepath.Join(outRoot, "evidence", p.ID+".json.tmp")
 		_ = os.WriteFile(tmp, b, 0o644)
-		_ = os.Rename(tmp, filepath.Join(root, "evidence", p.ID+".json"))
+		_ = os.Rename(tmp, filepath.Join(outRoot, "evidence", p.ID+".json"))
 	}
 
 	wall := time.Since(start).Seconds()
@@ -405,8 +406,8 @@ func matchKnown(k *knownFile, prop, key string) *knownFinding {
 	return nil
 }
 
-func runShard(root, scratch string, p *Property, r *shardRun, tier string, seed uint64, cs int) {
-	bin := filepath.Join(root, "bin", "vcheck")
+func runShard(root, outRoot, scratch string, p *Property, r *shardRun, tier string, seed uint64, cs int) {
+	bin := filepath.Join(envOr("VERIF_BIN", filepath.Join(root, "bin")), "vcheck")
 	if r.part.Race {
 		bin += ".race"
 	}
@@ -451,7 +452,7 @@ func runShard(root, scratch string, p *Property, r *shardRun, tier string, seed 
 			_ = cmd.Process.Kill()
 			werr = <-done
 		}
-		r.err = sfmt("watchdog %v fired (log kept at %s)", to, keepFile(root, r.logPath, p.ID))
+		r.err = sfmt("watchdog %v fired (log kept at %s)", to, keepFile(outRoot, r.logPath, p.ID))
 	}
 	if r.part.Race {
 		m, _ := filepath.Glob(racePrefix + ".*")
@@ -466,7 +467,7 @@ func runShard(root, scratch string, p *Property, r *shardRun, tier string, seed 
 		}
 	}
 	if r.err == "" {
-		r.err = sfmt("child ended without result (%v); log kept at %s", werr, keepFile(root, r.logPath, p.ID))
+		r.err = sfmt("child ended without result (%v); log kept at %s", werr, keepFile(outRoot, r.logPath, p.ID))
 	}
 }
 
